@@ -1,7 +1,7 @@
 CONSTANTS
   EB = 20
   StaleP = 200
-  MaxOps = 8
+  MaxOps = 7
   MaxMonths = 3
   GenHist = TRUE
   GenBias = FALSE
